@@ -45,7 +45,8 @@ LoadVerdict(c) ==
      ELSE IF m[1] = "value" /\ WF(m[2]) THEN "C12.valid-stream-rejected"
      ELSE "ok"
   ELSE \* the real loader returned a value
-     IF ~OnlySupported(c.real[2]) THEN "C13.unsupported-type-returned"
+     IF c.inp # <<>> /\ Head(c.inp) # Version THEN "C12.foreign-version-byte-accepted"
+     ELSE IF ~OnlySupported(c.real[2]) THEN "C13.unsupported-type-returned"
      ELSE IF c.prefix THEN "C13.strict-prefix-loaded"
      ELSE IF m[1] = "eof" THEN "C13.truncated-input-loaded"
      ELSE IF m[1] = "value" /\ WF(m[2]) /\ Norm(m[2]) # Norm(c.real[2]) THEN "C12.loaded-value-differs"
